@@ -536,7 +536,14 @@ func (a *authSim) creds() []cred {
 	if len(a.live) > 0 {
 		u := a.live[0]
 		cs = append(cs, cred{"user+suffix", "Bearer " + u + "0"}, cred{"user-prefix", "Bearer " + u[:len(u)-1]})
+		// credentials that are only "equal" to an issued token under a looser comparison than equality: SQL patterns,
+		// another letter case (wave 9: token looked up with LIKE)
+		cs = append(cs, cred{"user-othercase", "Bearer " + swapCase(u)}, cred{"user-one-wildcard", "Bearer _" + u[1:]},
+			cred{"user-prefix-percent", "Bearer " + u[:len(u)/2] + "%"}, cred{"all-underscores", "Bearer " + strings.Repeat("_", len(u))})
 	}
+	cs = append(cs, cred{"percent", "Bearer %"}, cred{"underscore-percent", "Bearer _%"},
+		// no credentials at all, but the headers of a websocket upgrade (wave 9: "upgrades are authenticated elsewhere")
+		cred{"none+upgrade", ""}, cred{"unknown+upgrade", "Bearer not-a-token"})
 	if len(a.revoked) > 0 {
 		cs = append(cs, cred{"revoked", "Bearer " + a.revoked[len(a.revoked)-1]})
 	}
@@ -621,6 +628,10 @@ func (a *authSim) sweep() {
 			hdr := map[string]string{}
 			if c.header != "" {
 				hdr["Authorization"] = c.header
+			}
+			if strings.HasSuffix(c.name, "+upgrade") {
+				hdr["Connection"] = "keep-alive, Upgrade"
+				hdr["Upgrade"] = "websocket"
 			}
 			mustReject := a.useAuth && (!valid || (admin && c.name != "admin"))
 			before := ""
